@@ -377,6 +377,7 @@ fn judge_c05(env: &Env, case: &Case, out: &Outcome, injected: Option<u32>, fails
                 }
             }
             rep.class_if(s.join_in_print && s.panic, "panicked-thread-joined-inside-a-print-statement");
+            rep.class_if(s.panic && s.tag % 3 == 0, "panic-with-a-message-that-cannot-be-rendered");
             rep.class_if(s.join_in_print && !s.panic, "joined-inside-a-print-statement");
             if s.stall_k > 0 {
                 rep.class_if(sr.stall_obs & 1 != 0 && s.joined(), "join-called-while-the-thread-sleeps-in-its-epilogue");
@@ -596,6 +597,11 @@ fn judge_c06(env: &Env, case: &Case, out: &Outcome, fails: &mut Vec<Failure>, la
             }
             rep.class_if(s.ty == 7, "align-4096-join-state");
             rep.class_if(s.ty == TY_VEC && s.joined() && !s.panic, "heap-owning-result-joined");
+            rep.class_if(s.panic && s.tag % 3 == 0, "panic-with-a-message-that-cannot-be-rendered");
+            rep.class_if(s.spurious && sr.woke == 1, "spurious-wake-delivered-to-parked-joiner");
+            rep.class_if(s.signal_joiner, "joiner-interrupted-by-a-signal-while-parked");
+            rep.class_if(s.deep, "closure-uses-256-KiB-of-stack");
+            rep.class_if(s.stall_k > 0 && s.reuse && sr.stall_obs & 1 != 0 && !s.joined(), "join-state-reusable-while-the-dropped-thread-is-finishing");
         }
         rep.nontrivial_if(handle_side && thread_side);
         rep.class_if(handle_side && thread_side, "both-flag-outcomes-in-one-batch");
